@@ -13,6 +13,7 @@ from __future__ import annotations
 
 import itertools
 import json
+import os
 import random
 import re
 from collections import Counter
@@ -126,6 +127,27 @@ def build_network(desc: dict):
             kw["pseudo_elements"] += [x for x in Species.default_pseudoelements if x not in kw["pseudo_elements"]]
         Species.set_known_elements(list(kw["elements"]))
         Species.set_known_pseudoelements(list(kw["pseudo_elements"]))
+    if desc.get("via_files"):
+        # the same reactions arriving through reaction FILES (written by the harness's own encoders), split over the listed formats in order
+        import tempfile
+        import encoders
+        fmts = list(desc["via_files"])
+        n_ = len(desc["reactions"])
+        cuts = [round(j * n_ / len(fmts)) for j in range(len(fmts) + 1)]
+        flist = []
+        for j, fmt_ in enumerate(fmts):
+            tf = tempfile.NamedTemporaryFile("w", suffix=f".{fmt_}", delete=False, dir=os.environ.get("TMPDIR"))
+            for i in range(cuts[j], cuts[j + 1]):
+                r, p = desc["reactions"][i]
+                tf.write(encoders.ENCODERS[fmt_]({"r": list(r), "p": list(p), "a": 1.0e-10 * (i + 1), "b": 0.0, "c": 0.0, "tmin": -1.0, "tmax": -1.0,
+                                                  "idx": i + 1, "code": {"naunet": 100, "kida": 3}[fmt_]}) + "\n")
+            tf.close()
+            flist.append(tf.name)
+        try:
+            return Network(filelist=flist, fileformats=fmts, required_species=list(desc.get("required", [])), **kw)
+        finally:
+            for f_ in flist:
+                os.unlink(f_)
     reacs = [Reaction(list(r), list(p), alpha=1.0e-10 * (i + 1), reaction_type=ReactionType.GAS_TWOBODY, idxfromfile=idxs[i])
              for i, (r, p) in enumerate(desc["reactions"])]
     if desc.get("rate_modifier"):
@@ -592,6 +614,12 @@ def main(ctx: Ctx) -> int:
         # a user-declared pseudo-reactant (not one of the built-in names)
         {"reactions": [(["H", "XR"], ["H+", "e-"]), (["H+", "e-"], ["H"]), (["He", "XR"], ["He+", "e-"]), (["He+", "e-", "UV"], ["He"])], "required": [],
          "pseudo_elements": PSEUDO + ["XR", "UV"], "pseudo_prefixes": True, "origin": "random"},
+        # networks read from reaction files (native; KIDA + native): one to three reactants, up to FIVE products, a repeated reactant
+        {"reactions": [(["H2", "O"], ["OH", "H"]), (["CH3OH", "He+"], ["CH", "OH", "H", "H", "He+"]), (["H", "H", "H"], ["H2", "H"]), (["OH", "H"], ["O", "H2"])],
+         "required": [], "via_files": ["naunet"], "origin": "random"},
+        {"reactions": [(["H2", "O"], ["OH", "H"]), (["CH3OH", "He+"], ["CH", "OH", "H", "H", "He+"]), (["H", "H", "H"], ["H2", "H"]),
+                       (["CH3OH", "H+"], ["CH", "OH", "H", "H", "H+"]), (["OH", "H"], ["O", "H2"])],
+         "required": ["He"], "via_files": ["kida", "naunet"], "origin": "random"},
         # an element represented by a species that is not spelled like it (the less connected O* precedes O in the species order)
         {"reactions": [(["O*", "H2"], ["OH", "H"]), (["O", "H2"], ["OH", "H"]), (["OH", "H"], ["O", "H2"]), (["O", "H"], ["OH"]), (["CO", "He+"], ["C+", "O", "He"])],
          "required": [], "origin": "random"},
